@@ -342,7 +342,7 @@ def dump(filename, particles, solver_data, detailed_output=False,
     are dumped, otherwise only rank 0 dumps the output.
 
     """
-    if filename.endswith(output_formats):
+    if filename.endswith(tuple('.' + x for x in output_formats)):
         fname = os.path.splitext(filename)[0]
     else:
         fname = filename
